@@ -1,6 +1,7 @@
 package main
 
 import (
+	"encoding/json"
 	"math/big"
 	"math/rand/v2"
 	"sort"
@@ -79,13 +80,22 @@ type tparseOut struct {
 	In  dynJ   `json:"in"`
 	Res string `json:"res"`
 }
+type histEv struct {
+	What string `json:"what"`
+	I    int    `json:"i"`
+	X    string `json:"x"`
+}
 type enumOut struct {
-	Key       string      `json:"key"`
-	Consts    [][2]string `json:"consts"`
-	Values    []string    `json:"values"`
-	StrValues []string    `json:"strvalues"`
-	Probes    []probeOut  `json:"probes"`
-	Parses    []parseOut  `json:"parses"`
+	Key        string      `json:"key"`
+	Consts     [][2]string `json:"consts"`
+	Values     []string    `json:"values"`
+	StrValues  []string    `json:"strvalues"`
+	Probes     []probeOut  `json:"probes"`
+	Parses     []parseOut  `json:"parses"`
+	Hist       []histEv    `json:"hist,omitempty"`
+	Values2    []string    `json:"values2"`
+	StrValues2 []string    `json:"strvalues2"`
+	Probes2    []probeOut  `json:"probes2"`
 	Enc       []encOut    `json:"enc,omitempty"`
 	Docs      []docOut    `json:"docs,omitempty"`
 	Acc       []accOut    `json:"acc,omitempty"`
@@ -236,6 +246,67 @@ func unicodeVariant(r *rand.Rand, n string) string {
 	return n[:i] + alts[r.IntN(len(alts))] + n[i+1:]
 }
 
+// undefinedFamily: the spelling String() gives undefined values, `Undefined<Type>:<n>`, for defined and
+// undefined n, with signs, leading zeros, numbers that wrap to a defined value at the enum's width, other
+// type names and other case — none of them is a name: every parser and decoder must reject them.
+func undefinedFamily(e *EnumDef) []string {
+	var nums []string
+	u := underOf(e)
+	width := new(big.Int).Lsh(bigOf(1), uint(u.bits))
+	hi := tyMin(u)
+	for i := range e.Consts {
+		v := valOf(&e.Consts[i])
+		if v.Cmp(hi) > 0 {
+			hi = v
+		}
+		if i < 3 {
+			nums = append(nums, v.String(), "+"+v.String(), "0"+v.String(), new(big.Int).Add(v, width).String(), new(big.Int).Sub(v, width).String())
+		}
+	}
+	nums = append(nums, new(big.Int).Add(hi, bigOf(1)).String(), "77", "-77", "4611686018427387904", "", "x", "0x1", "1.0", " 1")
+	var out []string
+	for _, n := range nums {
+		out = append(out, "Undefined"+e.Type+":"+n)
+	}
+	first := "0"
+	if len(e.Consts) > 0 {
+		first = e.Consts[0].Val
+	}
+	out = append(out, "Undefined"+e.Type, "undefined"+e.Type+":"+first, "UNDEFINED"+strings.ToUpper(e.Type)+":"+first,
+		"UndefinedOther:"+first, "Undefined:"+first, "Undefined"+e.Type+": "+first, "Undefined"+e.Type+":"+first+" ",
+		"Undefined"+strings.ToLower(e.Type)+":"+first)
+	return out
+}
+
+// whiteSpaces: every kind of white space a document may carry around an accepted spelling
+var whiteSpaces = []string{" ", "\t", "\r", "\n", "\r\n", "\v", "\u00a0", "\ufeff"}
+
+// wsVariants: s with leading / trailing white space of each kind — none of them is s
+func wsVariants(s string) []string {
+	var out []string
+	for _, w := range whiteSpaces {
+		out = append(out, s+w, w+s)
+	}
+	return out
+}
+
+// jsonQuote renders a JSON (and YAML double-quoted) string literal
+func jsonQuote(s string) string {
+	b, err := json.Marshal(s)
+	if err != nil {
+		panic(err)
+	}
+	return string(b)
+}
+
+// yamlPlainSafe: the word can be written as a plain YAML scalar holding exactly the word
+func yamlPlainSafe(w string) bool {
+	if w == "" || strings.ContainsAny(w, " #{}[],&*!|>'\"%@`~") || w[0] == '-' || w[0] == ':' || w[len(w)-1] == ':' || strings.Contains(w, ": ") {
+		return false
+	}
+	return true
+}
+
 func uniq(xs []string) []string {
 	seen := map[string]bool{}
 	var out []string
@@ -334,6 +405,12 @@ func planFor(r *rand.Rand, fd *FileDef, e *EnumDef, mode string) *enumPlan {
 	}
 	strs = append(strs, nearMisses(r, e, nm)...)
 	strs = append(strs, "", " ", "0", "1", "-1", "Undefined"+e.Type+":0", e.Type)
+	strs = append(strs, undefinedFamily(e)...)
+	for i, c := range e.Consts {
+		if i < 2 {
+			strs = append(strs, wsVariants(c.Name)...)
+		}
+	}
 	for i := 0; i < 6; i++ {
 		strs = append(strs, randWord(r))
 	}
@@ -427,6 +504,30 @@ func planFor(r *rand.Rand, fd *FileDef, e *EnumDef, mode string) *enumPlan {
 				}
 			}
 		}
+		words = append(words, undefinedFamily(e)...)
+		// every accepted spelling with leading / trailing white space of each kind (per decoder: raw text, JSON
+		// and YAML double-quoted strings with escapes)
+		var accepted []string
+		for i, c := range e.Consts {
+			if i < 2 {
+				accepted = append(accepted, c.Name)
+			}
+			if i == 0 {
+				accepted = append(accepted, strings.ToLower(c.Name))
+			}
+			for _, cl := range c.Cells {
+				if cl.Kind == "str" && i < 2 {
+					accepted = append(accepted, cl.Str)
+				}
+			}
+		}
+		for _, a := range uniq(accepted) {
+			for _, w := range wsVariants(a) {
+				p.TDocs = append(p.TDocs, w)
+				p.JDocs = append(p.JDocs, jsonQuote(w))
+				p.YDocs = append(p.YDocs, jsonQuote(w))
+			}
+		}
 		// the literal null: json.Unmarshal "reads" "" and 0 from it; YAML null never reaches the decoder
 		p.JDocs = append(p.JDocs, "null", " null ")
 		p.YDocs = append(p.YDocs, "null", "~")
@@ -458,7 +559,7 @@ func planFor(r *rand.Rand, fd *FileDef, e *EnumDef, mode string) *enumPlan {
 			}
 			p.TDocs = append(p.TDocs, w)
 			p.YDocs = append(p.YDocs, q)
-			if w != "" && !strings.ContainsAny(w, " :#{}[],&*!|>'\"%@`~") && w[0] != '-' || numeric(w) {
+			if yamlPlainSafe(w) || numeric(w) {
 				p.YDocs = append(p.YDocs, w)
 			}
 		}
